@@ -40,11 +40,15 @@ type c09Res struct {
 }
 
 func c09Unify(tys []cty.Type, uns bool) (res c09Res) {
+	// Unify gets its own copy of the slice: the clauses are judged against the types that were
+	// asked about, and a call that modifies its argument cannot leak into the next call (d09:
+	// the seeded in-place swap of unifyTuplesAsList did, and hid its own nil_iff_equal failures).
+	given := append([]cty.Type(nil), tys...)
 	p, why := try(func() {
 		if uns {
-			res.ty, res.convs = convert.UnifyUnsafe(tys)
+			res.ty, res.convs = convert.UnifyUnsafe(given)
 		} else {
-			res.ty, res.convs = convert.Unify(tys)
+			res.ty, res.convs = convert.Unify(given)
 		}
 	})
 	if p {
@@ -827,5 +831,11 @@ func runC09(ctx *Ctx) {
 			}
 			c.list(rev, 2)
 		}
+	}
+
+	// (4) d09: placeholder members next to lists and tuples, tuples of different lengths,
+	// nested objects with differing attribute sets, deep chains (c09_d09.go)
+	if sec("4") {
+		c09D09(c)
 	}
 }
